@@ -1,1 +1,550 @@
-//! Harness-owned TexlangState
+//! vstate: a harness-owned `TexlangState` with every component of the Texlang standard library
+//! (same register sizes as `StdLibState`) plus texlang-font with a mock font format, an in-memory
+//! file system, a mock terminal, a step budget and an event log.
+//!
+//! Everything here observes at public extension points of texlang (the `TexlangState` hooks and
+//! `vm::Handlers`); the only guarded repo hook used is `VM::verif_snapshot` (H2).
+
+use std::cell::{Cell, RefCell};
+use std::collections::HashMap;
+use std::rc::Rc;
+
+use texlang::command;
+use texlang::error;
+use texlang::prelude as txl;
+use texlang::token;
+use texlang::traits::*;
+use texlang::types;
+use texlang::types::CatCode;
+use texlang::vm;
+use texlang::vm::implement_has_component;
+use texlang_common::{InMemoryFileSystem, MockTerminalIn};
+use texlang_font as tfont;
+use texlang_stdlib::*;
+
+pub use texlang;
+pub use texlang_common;
+pub use texlang_font;
+pub use texlang_stdlib;
+
+/// Mock font format: a font file is any non-empty byte string, its first byte is its identity.
+#[derive(Debug, PartialEq, Eq, Clone)]
+pub struct MockFont(pub u8);
+#[derive(Debug)]
+pub struct MockFontError;
+impl std::error::Error for MockFontError {}
+impl std::fmt::Display for MockFontError {
+    fn fmt(&self, f: &mut std::fmt::Formatter<'_>) -> std::fmt::Result {
+        write!(f, "invalid font file")
+    }
+}
+impl common::FontFormat for MockFont {
+    const DEFAULT_FILE_EXTENSION: &'static str = "mock";
+    type Error = MockFontError;
+    fn parse(b: &[u8]) -> Result<Self, Self::Error> {
+        match b.first().copied() {
+            None => Err(MockFontError {}),
+            Some(u) => Ok(MockFont(u)),
+        }
+    }
+}
+
+#[derive(Default)]
+pub struct FontRecorder;
+impl tfont::FontRepo for FontRecorder {
+    type Format = MockFont;
+    fn add_font(&mut self, _id: types::Font, _font: Self::Format) {}
+}
+
+/// What the monitors record while the VM runs.
+#[derive(Debug, Clone, PartialEq, Eq)]
+pub enum Event {
+    /// A macro was expanded: name of the calling token, arguments and expansion rendered as text.
+    Macro {
+        name: String,
+        args: Vec<String>,
+        expansion: String,
+    },
+    /// `enable_font_hook(font)`
+    EnableFont(u32),
+    /// `recoverable_error_hook` was called (title of the error).
+    Recovered(String),
+    /// A `\vprobe` was executed (index into `Mon::probes`).
+    Probe(usize),
+}
+
+/// Monitor-side state living inside the VM state (never serialised).
+pub struct Mon {
+    pub steps: Cell<u64>,
+    pub budget: Cell<u64>,
+    pub out: String,
+    pub events: RefCell<Vec<Event>>,
+    pub record_macros: bool,
+    pub recovered: Cell<u64>,
+    /// Snapshots taken by `\vprobe` (property specific, produced by `probe_fn`).
+    pub probes: Vec<serde_json::Value>,
+    pub probe_fn: Option<fn(&vm::VM<VState>) -> serde_json::Value>,
+    pub call_tracing_hook: bool,
+}
+
+impl Default for Mon {
+    fn default() -> Self {
+        Mon {
+            steps: Cell::new(0),
+            budget: Cell::new(u64::MAX),
+            out: String::new(),
+            events: RefCell::new(vec![]),
+            record_macros: false,
+            recovered: Cell::new(0),
+            probes: vec![],
+            probe_fn: None,
+            call_tracing_hook: false,
+        }
+    }
+}
+
+impl Mon {
+    #[inline]
+    pub fn step(&self) {
+        let s = self.steps.get() + 1;
+        self.steps.set(s);
+        if s > self.budget.get() {
+            // make sure a second panic while unwinding cannot happen
+            self.budget.set(u64::MAX);
+            std::panic::panic_any(vcore::BudgetExceeded);
+        }
+    }
+}
+
+/// A state struct compatible with every primitive of the standard library and of texlang-font.
+#[derive(Default, serde::Serialize, serde::Deserialize)]
+pub struct VState {
+    pub alloc: alloc::Component,
+    pub codes_cat_code: codes::Component<CatCode>,
+    pub codes_math_code: codes::Component<types::MathCode>,
+    pub conditional: conditional::Component,
+    pub end_line_char: endlinechar::Component,
+    pub error_mode: errormode::Component,
+    pub input: input::Component<16>,
+    pub job: job::Component,
+    pub prefix: prefix::Component,
+    pub registers_i32: registers::Component<i32, 32768>,
+    pub registers_scaled: registers::Component<common::Scaled, 32768>,
+    pub registers_glue: registers::Component<common::Glue, 32768>,
+    pub registers_token_list: registers::Component<Vec<token::Token>, 256>,
+    pub repl: repl::Component,
+    pub script: script::Component,
+    pub time: time::Component,
+    pub tracing_macros: tracingmacros::Component,
+    pub font: tfont::FontComponent,
+    #[serde(skip)]
+    pub script_font: registers::Component<types::Font, 16, tfont::ScriptFontMarker>,
+    #[serde(skip)]
+    pub script_script_font: registers::Component<types::Font, 16, tfont::ScriptScriptFontMarker>,
+    #[serde(skip)]
+    pub text_font: registers::Component<types::Font, 16, tfont::TextFontMarker>,
+    #[serde(skip)]
+    pub font_repo: FontRecorder,
+    #[serde(skip)]
+    pub file_system: FsHandle,
+    #[serde(skip)]
+    pub mon: Mon,
+}
+
+pub struct FsHandle(pub Rc<RefCell<InMemoryFileSystem>>);
+impl Default for FsHandle {
+    fn default() -> Self {
+        FsHandle(Rc::new(RefCell::new(InMemoryFileSystem::default())))
+    }
+}
+
+impl TexlangState for VState {
+    #[inline]
+    fn cat_code(&self, c: char) -> CatCode {
+        self.mon.step();
+        codes::cat_code(self, c)
+    }
+
+    #[inline]
+    fn end_line_char(&self) -> Option<char> {
+        endlinechar::end_line_char(self)
+    }
+
+    fn post_macro_expansion_hook(
+        token: token::Token,
+        input: &vm::ExpansionInput<Self>,
+        tex_macro: &texlang::texmacro::Macro,
+        arguments: &[&[token::Token]],
+        reversed_expansion: &[token::Token],
+    ) {
+        let state = input.state();
+        state.mon.step();
+        if state.mon.record_macros {
+            let interner = input.vm().cs_name_interner();
+            let name = tokens_to_string(&[token], interner);
+            let args = arguments
+                .iter()
+                .map(|a| tokens_to_string(a, interner))
+                .collect();
+            let exp: Vec<token::Token> = reversed_expansion.iter().rev().copied().collect();
+            state.mon.events.borrow_mut().push(Event::Macro {
+                name,
+                args,
+                expansion: tokens_to_string(&exp, interner),
+            });
+        }
+        if state.mon.call_tracing_hook {
+            tracingmacros::hook(token, input, tex_macro, arguments, reversed_expansion)
+        }
+    }
+
+    #[inline]
+    fn expansion_override_hook(
+        token: token::Token,
+        input: &mut vm::ExpansionInput<Self>,
+        tag: Option<command::Tag>,
+    ) -> txl::Result<Option<token::Token>> {
+        input.state().mon.step();
+        expansion::noexpand_hook(token, input, tag)
+    }
+
+    #[inline]
+    fn variable_assignment_scope_hook(
+        state: &mut Self,
+    ) -> texcraft_stdext::collections::groupingmap::Scope {
+        state.mon.step();
+        prefix::variable_assignment_scope_hook(state)
+    }
+
+    fn recoverable_error_hook(
+        &self,
+        recoverable_error: error::TracedTexError,
+    ) -> Result<(), Box<dyn error::TexError>> {
+        self.mon.step();
+        let title = recoverable_error.error.title();
+        let r = errormode::recoverable_error_hook(self, recoverable_error);
+        if r.is_ok() {
+            self.mon.recovered.set(self.mon.recovered.get() + 1);
+            self.mon.events.borrow_mut().push(Event::Recovered(title));
+        }
+        r
+    }
+
+    fn enable_font_hook(&mut self, font: types::Font) {
+        self.mon.events.borrow_mut().push(Event::EnableFont(font.0 as u32));
+    }
+
+    fn is_current_font_command(&self, tag: command::Tag) -> bool {
+        tfont::FontComponent::is_current_font_command(self, tag)
+    }
+}
+
+impl the::TheCompatible for VState {
+    fn get_command_ref_for_font(&self, font: types::Font) -> Option<token::CommandRef> {
+        tfont::FontComponent::get_command_ref_for_font(self, font)
+    }
+}
+
+implement_has_component![VState{
+    alloc: alloc::Component,
+    codes_cat_code: codes::Component<CatCode>,
+    codes_math_code: codes::Component<types::MathCode>,
+    conditional: conditional::Component,
+    end_line_char: endlinechar::Component,
+    error_mode: errormode::Component,
+    input: input::Component<16>,
+    job: job::Component,
+    prefix: prefix::Component,
+    registers_i32: registers::Component<i32, 32768>,
+    registers_scaled: registers::Component<common::Scaled, 32768>,
+    registers_glue: registers::Component<common::Glue, 32768>,
+    registers_token_list: registers::Component<Vec<token::Token>, 256>,
+    repl: repl::Component,
+    script: script::Component,
+    time: time::Component,
+    tracing_macros: tracingmacros::Component,
+    font: tfont::FontComponent,
+    script_font: registers::Component<types::Font, 16, tfont::ScriptFontMarker>,
+    script_script_font: registers::Component<types::Font, 16, tfont::ScriptScriptFontMarker>,
+    text_font: registers::Component<types::Font, 16, tfont::TextFontMarker>,
+}];
+
+impl tfont::HasFontRepo for VState {
+    type FontRepo = FontRecorder;
+    fn font_repo_mut(&mut self) -> &mut Self::FontRepo {
+        &mut self.font_repo
+    }
+}
+
+impl texlang_common::HasFileSystem for VState {
+    fn file_system(&self) -> Rc<RefCell<dyn texlang_common::FileSystem>> {
+        self.file_system.0.clone()
+    }
+}
+
+/// Output of recovered errors in scroll/nonstop mode goes nowhere (not to the real stdout).
+impl texlang_common::HasLogging for VState {
+    fn terminal_out(&self) -> Rc<RefCell<dyn std::io::Write>> {
+        Rc::new(RefCell::new(std::io::sink()))
+    }
+}
+
+impl texlang_common::HasTerminalIn for VState {
+    fn terminal_in(&self) -> Rc<RefCell<dyn texlang_common::TerminalIn>> {
+        self.error_mode.terminal_in()
+    }
+}
+
+/// The standard library's built-ins plus the font primitives plus `\vprobe`, `\par`, `\newline`.
+pub fn built_ins() -> HashMap<&'static str, command::BuiltIn<VState>> {
+    let mut m = texlang_stdlib::built_in_commands::<VState>();
+    m.insert("font", tfont::get_font());
+    m.insert("fontname", tfont::get_fontname());
+    m.insert("nullfont", tfont::get_nullfont());
+    m.insert("scriptfont", tfont::get_scriptfont());
+    m.insert("scriptscriptfont", tfont::get_scriptscriptfont());
+    m.insert("textfont", tfont::get_textfont());
+    m.insert("vprobe", command::BuiltIn::new_execution(vprobe_fn));
+    // \sleep really sleeps: keep it out of generated programs' reach
+    m.remove("sleep");
+    m
+}
+
+/// Same, with the simple (reference) implementation of `\expandafter`.
+pub fn built_ins_simple_expandafter() -> HashMap<&'static str, command::BuiltIn<VState>> {
+    let mut m = built_ins();
+    m.insert("expandafter", expansion::get_expandafter_simple());
+    m
+}
+
+fn vprobe_fn(_: token::Token, input: &mut vm::ExecutionInput<VState>) -> txl::Result<()> {
+    let f = input.state().mon.probe_fn;
+    if let Some(f) = f {
+        let v = f(input.vm());
+        let mon = &mut input.state_mut().mon;
+        mon.probes.push(v);
+        let n = mon.probes.len() - 1;
+        mon.events.borrow_mut().push(Event::Probe(n));
+    }
+    Ok(())
+}
+
+/// `Handlers` that write delivered tokens to `mon.out`: characters as themselves, unexpanded
+/// expansion commands as `\name ` (active characters as the character).
+pub struct VHandlers;
+
+impl vm::Handlers<VState> for VHandlers {
+    fn character_handler(
+        input: &mut vm::ExecutionInput<VState>,
+        _token: token::Token,
+        c: char,
+    ) -> txl::Result<()> {
+        let mon = &mut input.state_mut().mon;
+        mon.step();
+        mon.out.push(c);
+        Ok(())
+    }
+
+    fn unexpanded_expansion_command(
+        input: &mut vm::ExecutionInput<VState>,
+        token: token::Token,
+    ) -> txl::Result<()> {
+        let s = tokens_to_string(&[token], input.vm().cs_name_interner());
+        let mon = &mut input.state_mut().mon;
+        mon.step();
+        mon.out.push_str(&s);
+        Ok(())
+    }
+}
+
+/// Render tokens unambiguously: `\name ` for control sequences, the character otherwise.
+pub fn tokens_to_string(tokens: &[token::Token], interner: &token::CsNameInterner) -> String {
+    let mut s = String::new();
+    for t in tokens {
+        match t.value() {
+            token::Value::CommandRef(token::CommandRef::ControlSequence(name)) => {
+                s.push('\\');
+                s.push_str(interner.resolve(name).unwrap_or("?unresolved?"));
+                s.push(' ');
+            }
+            token::Value::CommandRef(token::CommandRef::ActiveCharacter(c)) => s.push(c),
+            v => {
+                if let Some(c) = v.char() {
+                    s.push(c)
+                }
+            }
+        }
+    }
+    s
+}
+
+/// Font files available in every harness VM: `a.mock` .. `d.mock` (+ an invalid empty one).
+pub const FONT_FILES: &[(&str, u8)] = &[("a.mock", 1), ("b.mock", 2), ("c.mock", 3), ("d.mock", 4)];
+
+pub struct VmOptions {
+    pub simple_expandafter: bool,
+    pub budget: u64,
+    pub record_macros: bool,
+    pub files: Vec<(String, String)>,
+    pub terminal_lines: Vec<String>,
+}
+
+impl Default for VmOptions {
+    fn default() -> Self {
+        VmOptions {
+            simple_expandafter: false,
+            budget: 200_000,
+            record_macros: false,
+            files: vec![],
+            terminal_lines: vec![],
+        }
+    }
+}
+
+pub const WORKDIR: &str = "/vwork";
+
+/// Attach everything that is not part of the serialised state: file system, terminal, font
+/// prefix registration, monitor options. Used for fresh and for deserialised VMs alike.
+pub fn attach(vm: &mut vm::VM<VState>, opts: &VmOptions) {
+    vm.working_directory = Some(std::path::PathBuf::from(WORKDIR));
+    let mut fs = InMemoryFileSystem::new(std::path::Path::new(WORKDIR));
+    for (name, id) in FONT_FILES {
+        fs.add_bytes_file(name, &[*id]);
+    }
+    fs.add_bytes_file("invalid.mock", &[]);
+    for (name, content) in &opts.files {
+        fs.add_string_file(name, content);
+    }
+    vm.state.file_system = FsHandle(Rc::new(RefCell::new(fs)));
+    let mut term = MockTerminalIn::default();
+    for l in &opts.terminal_lines {
+        term.add_line(l.clone());
+    }
+    vm.state
+        .error_mode
+        .set_default_terminal(Rc::new(RefCell::new(term)));
+    vm.state.mon.budget.set(opts.budget);
+    vm.state.mon.record_macros = opts.record_macros;
+}
+
+pub fn new_vm(opts: &VmOptions) -> Box<vm::VM<VState>> {
+    let built = if opts.simple_expandafter {
+        built_ins_simple_expandafter()
+    } else {
+        built_ins()
+    };
+    let mut vm = Box::new(vm::VM::<VState>::new_with_built_in_commands(built));
+    tfont::FontComponent::initialize(&mut vm);
+    attach(&mut vm, opts);
+    vm
+}
+
+/// Outcome of one `VM::run`.
+#[derive(Debug, Clone)]
+pub enum Outcome {
+    Ok,
+    /// Fatal error: (title, rendered text, kind has a source location)
+    Err {
+        title: String,
+        rendered: String,
+    },
+}
+
+impl Outcome {
+    pub fn is_ok(&self) -> bool {
+        matches!(self, Outcome::Ok)
+    }
+    pub fn err_title(&self) -> Option<&str> {
+        match self {
+            Outcome::Ok => None,
+            Outcome::Err { title, .. } => Some(title),
+        }
+    }
+}
+
+/// Push `source` and run to completion with `VHandlers`. Panics propagate (use `vcore::catch`).
+pub fn run(vm: &mut vm::VM<VState>, name: &str, source: &str) -> Outcome {
+    if vm.push_source(name.to_string(), source.to_string()).is_err() {
+        return Outcome::Err {
+            title: "push_source failed".into(),
+            rendered: String::new(),
+        };
+    }
+    match vm.run::<VHandlers>() {
+        Ok(()) => Outcome::Ok,
+        Err(e) => {
+            let title = e.error.title();
+            let rendered = format!("{e}");
+            Outcome::Err { title, rendered }
+        }
+    }
+}
+
+pub fn take_out(vm: &mut vm::VM<VState>) -> String {
+    std::mem::take(&mut vm.state.mon.out)
+}
+
+pub fn take_events(vm: &mut vm::VM<VState>) -> Vec<Event> {
+    std::mem::take(&mut *vm.state.mon.events.borrow_mut())
+}
+
+/// Convenience: fresh VM, run one program, return (outcome, output).
+pub fn run_program(opts: &VmOptions, source: &str) -> (Outcome, String, Box<vm::VM<VState>>) {
+    let mut vm = new_vm(opts);
+    let o = run(&mut vm, "input.tex", source);
+    let out = take_out(&mut vm);
+    (o, out, vm)
+}
+
+#[derive(Clone, Copy, Debug, PartialEq, Eq)]
+pub enum Format {
+    Json,
+    MessagePack,
+    Bincode,
+}
+
+/// Serialise and deserialise a VM (the checkpoint of C08), re-attaching the non-serialised parts.
+pub fn checkpoint(
+    vm: &vm::VM<VState>,
+    format: Format,
+    opts: &VmOptions,
+) -> Result<Box<vm::VM<VState>>, String> {
+    let built = if opts.simple_expandafter {
+        built_ins_simple_expandafter()
+    } else {
+        built_ins()
+    };
+    let mut new_vm: Box<vm::VM<VState>> = match format {
+        Format::Json => {
+            let bytes = serde_json::to_vec(vm).map_err(|e| format!("json serialise: {e}"))?;
+            let mut d = serde_json::Deserializer::from_slice(&bytes);
+            Box::new(
+                vm::VM::<VState>::deserialize_with_built_in_commands(&mut d, built)
+                    .map_err(|e| format!("json deserialise: {e}"))?,
+            )
+        }
+        Format::MessagePack => {
+            let bytes =
+                rmp_serde::encode::to_vec(vm).map_err(|e| format!("msgpack serialise: {e}"))?;
+            let mut d = rmp_serde::decode::Deserializer::from_read_ref(&bytes);
+            Box::new(
+                vm::VM::<VState>::deserialize_with_built_in_commands(&mut d, built)
+                    .map_err(|e| format!("msgpack deserialise: {e}"))?,
+            )
+        }
+        Format::Bincode => {
+            let bytes = bincode::serde::encode_to_vec(vm, bincode::config::standard())
+                .map_err(|e| format!("bincode serialise: {e}"))?;
+            let d: Box<vm::serde::DeserializedVM<VState>> =
+                bincode::serde::decode_from_slice(&bytes, bincode::config::standard())
+                    .map_err(|e| format!("bincode deserialise: {e}"))?
+                    .0;
+            Box::new(vm::serde::finish_deserialization(d, built))
+        }
+    };
+    attach(&mut new_vm, opts);
+    // carry over the monitor's own bookkeeping
+    new_vm.state.mon.probe_fn = vm.state.mon.probe_fn;
+    new_vm.state.mon.call_tracing_hook = vm.state.mon.call_tracing_hook;
+    Ok(new_vm)
+}
